@@ -27,7 +27,9 @@ class MIADistinguisherMixin(_PartitionnedDistinguisherBaseMixin):
         for a, b in zip(bin_edges, bin_edges[1:]):
             if not a < b:
                 raise ValueError(f'bin_edges must be sorted, but {a} >= {b}.')
-        if _np.sum(_np.diff(_np.diff(bin_edges))) > 1e-9:
+        widths = _np.diff(bin_edges)
+        tolerance = max(1e-9 * _np.max(_np.abs(widths)), 4 * _np.finfo('float64').eps * _np.max(_np.abs(bin_edges)))
+        if _np.any(_np.abs(widths - _np.mean(widths)) > tolerance):
             raise ValueError('bin_edges must be uniform (i.e with bins equally spaced.')
         self._bin_edges = bin_edges
         self.bins_number = len(bin_edges) - 1
